@@ -213,3 +213,81 @@ func c12Readonly(c *Ctx) {
 	}
 	_ = fmt.Sprint
 }
+
+// ---- C12.diff-complete: the kv diff cursor hands on every entry the tree diff reports ----------------
+
+func init() {
+	register(&Rule{Name: "C12.diff-complete", Min: 2, Run: c12DiffComplete,
+		Doc: "kv.DiffCursor.NextEntry returns the entry of exactly one step of the tree diff: no loop, no filtering"})
+	byProp["C12"] = append(byProp["C12"], "C12.diff-complete")
+	byProp["C17"] = append(byProp["C17"], "C12.diff-complete")
+	explain["C12"] += " diff-complete: the kv-level diff cursor performs one step of the structural diff per call and returns its entry (only unwrapping the values); it neither loops nor skips entries by inspecting them — in s3db the entry's write time does not identify the row's content, so any 'same write' filter drops rows that differ."
+}
+
+func c12DiffComplete(c *Ctx) {
+	const rule = "C12.diff-complete"
+	fn := mustFunc(c, "kv", "*DiffCursor", "NextEntry")
+	if fn == nil {
+		return
+	}
+	name := core.FuncName(fn)
+	var inner []ssa.CallInstruction
+	for _, call := range an.Calls(fn) {
+		if an.CalleeIs(call, mastPkg, "DiffCursor", "NextEntry") {
+			inner = append(inner, call)
+		}
+	}
+	c.R.Cond(len(inner) == 1 && !an.InCycle(inner[0].Block()), rule, name+": one step per call", c.P.Pos(fn.Pos()),
+		"exactly one call of the tree diff's NextEntry, not in a loop", fmt.Sprintf("%d calls of the tree diff's NextEntry (or one inside a loop): entries can be skipped or a failed step retried past the sub-trees it had already popped", len(inner)))
+	if len(inner) != 1 {
+		return
+	}
+	// every nil-error return returns that step's entry
+	var entry ssa.Value
+	if cv := inner[0].Value(); cv != nil {
+		for _, r := range *cv.Referrers() {
+			if ex, ok := r.(*ssa.Extract); ok && ex.Index == 0 {
+				entry = ex
+			}
+		}
+	}
+	k := 0
+	for _, b := range fn.Blocks {
+		ret, ok := b.Instrs[len(b.Instrs)-1].(*ssa.Return)
+		if !ok || !an.IsNilConst(an.RetErr(ret)) {
+			continue
+		}
+		k++
+		rv := an.RetVal(ret, 0)
+		good := entry != nil && an.DependsOn(rv, func(v ssa.Value) bool { return v == entry })
+		// and no condition on the entry's fields other than nil tests decides the return
+		extra := ""
+		for _, blk := range fn.Blocks {
+			iff, ok := blk.Instrs[len(blk.Instrs)-1].(*ssa.If)
+			if !ok {
+				continue
+			}
+			if _, _, isNil := anyNilTestExported(iff); isNil {
+				continue
+			}
+			if an.DependsOn(iff.Cond, func(v ssa.Value) bool { return v == entry }) {
+				extra = iff.Cond.String()
+			}
+		}
+		c.R.Cond(good && extra == "", rule, fmt.Sprintf("%s: success return #%d hands on the step's entry unfiltered", name, k), c.P.Pos(ret.Pos()),
+			"returns the entry of this step; only nil tests of its values", "the entry is filtered by a condition on its contents ("+extra+") or another value is returned")
+	}
+}
+
+func anyNilTestExported(iff *ssa.If) (ssa.Value, int, bool) {
+	cond, _ := an.StripNot(iff.Cond)
+	if bo, ok := cond.(*ssa.BinOp); ok && (bo.Op == token.EQL || bo.Op == token.NEQ) {
+		if an.IsNilConst(bo.X) {
+			return bo.Y, 0, true
+		}
+		if an.IsNilConst(bo.Y) {
+			return bo.X, 0, true
+		}
+	}
+	return nil, 0, false
+}
